@@ -962,8 +962,24 @@ func runCase(c *tcase, r *res.Result) (*viol, string) {
 			var k int
 			fmt.Sscanf(d, "seen:%d", &k)
 			a, _ := net.ResolveUDPAddr("udp", s.recv[k%len(s.recv)].src)
-			if rng.Intn(3) == 0 && a != nil {
+			if a == nil {
+				return nil
+			}
+			switch rng.Intn(4) {
+			case 0:
 				a.Port += 1 + rng.Intn(3) // a neighbouring, possibly never allocated port
+			case 1:
+				// the same port on another external address of the same NAT (never allocated there)
+				for _, rm := range w.routers {
+					if len(rm.wanIPs) > 1 {
+						for i, ip := range rm.wanIPs {
+							if ip == a.IP.String() {
+								a.IP = net.ParseIP(rm.wanIPs[(i+1)%len(rm.wanIPs)]).To4()
+								return a
+							}
+						}
+					}
+				}
 			}
 			return a
 		}
